@@ -80,7 +80,8 @@ def step (st : St) (line : String) : St × String :=
       let (c', out, log) := refineMesh fnF consts (lmin * lmin) (lmax * lmax) (sw == "1") c 1000000
       let o := match out with
         | .returned => "returned" | .threw e => s!"threw {e.name}" | .fuelOut => "fuel"
-      ({ st with cell := some c' }, s!"{o} ops {log.length} : {" , ".intercalate log.reverse}")
+      let ls := log.reverse.map (fun (p : Bool × Nat × Nat × Float) => s!"{if p.1 then "s" else "m"} {p.2.1} {p.2.2.1} {showF p.2.2.2}")
+      ({ st with cell := some c' }, s!"{o} ops {log.length} : {" , ".intercalate ls}")
     | _, _ => (st, "bad-op")
   | ["split", a, b] =>
     match st.cell, a.toNat?, b.toNat? with
@@ -92,7 +93,7 @@ def step (st : St) (line : String) : St × String :=
          | .ok (c', _) =>
            -- the new node is the one `add_node` hands out
            let enew := match c.freeNodes with | i :: _ => i | [] => c.nodes.size
-           ({ st with cell := some c' }, s!"ok {absCheck (Surface.splitT (abs c) e.n1 e.n2 enew) (abs c')}")
+           ({ st with cell := some c' }, s!"ok {if Surface.splitGuardB (abs c) e.n1 e.n2 then absCheck (Surface.splitT (abs c) e.n1 e.n2 enew) (abs c') else "absbad"}")
          | .error x => (st, s!"err {x.name}"))
     | _, _, _ => (st, "bad-op")
   | ["canmerge", a, b] =>
@@ -101,7 +102,7 @@ def step (st : St) (line : String) : St × String :=
       (match getEdge c a b with
        | none => (st, "noedge")
        | some e => match canBeMerged c e with
-         | .ok r => (st, if r then "true" else "false")
+         | .ok r => (st, if r then (if Surface.linkCondB (abs c) e.n1 e.n2 then "true absok" else "true absbad") else "false")
          | .error x => (st, s!"err {x.name}"))
     | _, _, _ => (st, "bad-op")
   | ["merge", a, b] =>
@@ -131,7 +132,7 @@ def step (st : St) (line : String) : St × String :=
            let chk := match t1, t2 with
              | some _, some _ =>
                let done := Surface.canon (abs c') != Surface.canon T
-               if done then absCheck (Surface.swapT T e.n1 e.n2) (abs c')
+               if done then (if Surface.swapGuardB T e.n1 e.n2 then absCheck (Surface.swapT T e.n1 e.n2) (abs c') else "absbad")
                else "absok-noop"
              | _, _ => "absbad"
            ({ st with cell := some c' }, s!"ok {chk}")
@@ -156,6 +157,7 @@ partial def loop (h : IO.FS.Stream) (out : IO.FS.Stream) (st : St) : IO Unit := 
   if line.isEmpty then return ()
   let (st', ans) := step st line
   out.putStrLn ans
+  out.flush
   loop h out st'
 
 def main : IO Unit := do
